@@ -71,6 +71,7 @@ PLAN = {
             H("c01_macro_target_level", "m!(target: T, level: L, ...): target, level (counter x 5 levels, gauge/histogram x 2), module path of the call site, name, labels", module=M, args=UNW),
             H("c01_macro_target_only", "m!(target: T, ...): level INFO", module=M, args=UNW),
             H("c01_macro_level_only", "m!(level: L, ...): target == call site module path", module=M, args=UNW),
+            H("c01_macro_level_only_labels", "m!(level: L, name, literal labels): the labels are delivered too (the remaining cell of macro x prefix form x label form)", module=M, args=UNW),
             H("c01_macro_describe_unit", "describe_*!(name, unit, desc): one call, name, Some(unit) for all 17 units, description", module=M, args=UNW),
             H("c01_macro_describe_nounit", "describe_*!(name, desc): unit None", module=M, args=UNW),
             H("c01_macro_noop", "no local and no global recorder: every form reaches only the no-op recorder (no panic, no effect)", module=M, args=UNW),
